@@ -1648,12 +1648,19 @@ class TeX(object):
             # integer constant
             elif t in string.digits:
                 num = number(sign * int(t + self.readSequence(string.digits,
-                                                              optspace=optspace)))
+                                                              optspace=False)))
                 # A register directly after the constant multiplies it.
                 # Look at the next token without expanding it: whatever
                 # follows the number must not run before the number is used
                 context = self.ownerDocument.context
                 for t in self.itertokens():
+                    # A blank ends the constant: what follows it is not ours
+                    # (\tolerance=200 \hbadness=3)
+                    if t.nodeType != Macro.ELEMENT_NODE and \
+                       t.catcode == Token.CC_SPACE:
+                        if not optspace:
+                            self.pushToken(t)
+                        break
                     if t.nodeType == Macro.ELEMENT_NODE:
                         if isinstance(t, ParameterCommand):
                             num = number(num * number(t))
